@@ -448,7 +448,10 @@ fn run_history(rep: &mut Report, prop: &str, seed: u64, len: usize) -> HistoryOu
         Vec::new()
     };
     let mut forced: Option<Forced>;
-    let total_steps = if c05 { len + 60 } else { len };
+    // C05, one history in eight: afterwards the chain stands still for more than MESSAGE_TIMEOUT
+    // while the peers keep answering (the quiet-chain probe)
+    let quiet_probe = c05 && seed % 8 == 1;
+    let total_steps = if quiet_probe { len + 60 + 40 } else if c05 { len + 60 } else { len };
     let mut settled = false;
     let mut idle_ticks = 0;
     // C05: the refresh timer fires every 8 s, so it always fires within 8 s after an announcement
@@ -462,7 +465,8 @@ fn run_history(rep: &mut Report, prop: &str, seed: u64, len: usize) -> HistoryOu
     for step in 0..total_steps {
         rep.evaluations += 1;
         let mut choice = rng.below(20);
-        let settling = c05 && step >= len;
+        let quiet_tail = quiet_probe && step >= len + 60;
+        let settling = c05 && step >= len && !quiet_tail;
         // state-directed bias: answer outstanding requests, announce to peers without a last state
         if !outstanding.is_empty() && rng.chance(1, 2) {
             choice = 10;
@@ -483,8 +487,8 @@ fn run_history(rep: &mut Report, prop: &str, seed: u64, len: usize) -> HistoryOu
         // while settling the chain still finds three more blocks (a client whose peer repeats an
         // unproved last state waits for the next block by design), then stands still
         let settle_growth = settling && [0usize, 12, 24].contains(&(step - len));
-        let grow_now = c05 && ((!settling && now > last_growth + 30_000) || settle_growth);
-        let tick_now = c05 && !grow_now && tick_due && outstanding.is_empty();
+        let grow_now = c05 && !quiet_tail && ((!settling && now > last_growth + 30_000) || settle_growth);
+        let tick_now = c05 && !quiet_tail && !grow_now && tick_due && outstanding.is_empty();
         if tick_now {
             tick_due = false;
         }
@@ -512,6 +516,11 @@ fn run_history(rep: &mut Report, prop: &str, seed: u64, len: usize) -> HistoryOu
                         // proofs of new last states are requested by the refresh timer
                         if idle_ticks >= 2 {
                             settled = true;
+                            if quiet_probe {
+                                // go on with the quiet tail
+                                idle_ticks = 0;
+                                continue;
+                            }
                             break;
                         }
                         idle_ticks += 1;
@@ -521,7 +530,17 @@ fn run_history(rep: &mut Report, prop: &str, seed: u64, len: usize) -> HistoryOu
             }
         }
         let forced_settle = forced_peer;
-        if tick_now || grow_now {
+        if quiet_tail {
+            // the chain stands still: the peers answer every GetLastState, the timer fires every 8 s
+            forced_peer = None;
+            while let Some(p) = announce_queue.pop() {
+                if connected.contains(&p) {
+                    forced_peer = Some(p);
+                    break;
+                }
+            }
+            choice = if forced_peer.is_some() { 6 } else { 19 };
+        } else if tick_now || grow_now {
             // the timer / the new block first
         } else if settling {
             forced_peer = forced_settle;
@@ -1196,7 +1215,7 @@ fn run_history(rep: &mut Report, prop: &str, seed: u64, len: usize) -> HistoryOu
                     MESSAGE_TIMEOUT + 1,
                     2 * MESSAGE_TIMEOUT,
                 ]);
-                let dt = if tick_now || settling { 1000 } else if c05 { *rng.pick(&[1000u64, 4000, 8000, 8001]) } else { dt };
+                let dt = if quiet_tail { 8000 } else if tick_now || settling { 1000 } else if c05 { *rng.pick(&[1000u64, 4000, 8000, 8001]) } else { dt };
                 now += dt;
                 set_now(now);
                 let before_states: Vec<(u64, Option<PeerState>)> = connected
@@ -1227,7 +1246,16 @@ fn run_history(rep: &mut Report, prop: &str, seed: u64, len: usize) -> HistoryOu
                             }
                         }
                     }
-                    if !disc.is_empty() && !tainted {
+                    if !disc.is_empty() && !tainted && quiet_tail {
+                        let mut r = replay.clone();
+                        r.push("# the chain stood still for MESSAGE_TIMEOUT, the peer answered every GetLastState with its unchanged tip".into());
+                        rep.violate(
+                            "C05|honest-peer-disconnected|quiet-chain",
+                            "a peer whose tip does not change for MESSAGE_TIMEOUT is dropped although it answers every request",
+                            r,
+                        );
+                        tainted = true;
+                    } else if !disc.is_empty() && !tainted {
                         rep.violate("C05|honest-peer-disconnected", "the refresh timer disconnects a peer that answered everything in time", replay.clone());
                     }
                 }
